@@ -1,0 +1,195 @@
+//go:build verif
+
+package peer
+
+import (
+	"io"
+	"net"
+	"net/netip"
+	"sync/atomic"
+	"time"
+
+	"github.com/jech/storrent/bitmap"
+	"github.com/jech/storrent/hash"
+	"github.com/jech/storrent/peer/requests"
+	"github.com/jech/storrent/pex"
+	"github.com/jech/storrent/protocol"
+	"github.com/jech/storrent/tor/piece"
+)
+
+// VerifPeerOpts describes a peer wired to caller-owned channels, with no
+// goroutine of its own: the harness calls the handlers directly.
+type VerifPeerOpts struct {
+	Proxy      string
+	Conn       net.Conn
+	Addr       netip.AddrPort
+	Incoming   bool
+	Hash, Id   hash.Hash
+	Dht        bool
+	Fast       bool
+	Extended   bool
+	Pieces     *piece.Pieces
+	Info       []byte
+	MyBitmap   bitmap.Bitmap
+	WriterCap  int
+	TorEvent   chan TorEvent
+	TorDone    chan struct{}
+	WriterDone chan struct{}
+}
+
+// VerifNewPeer does what New and the prologue of Run do, minus the goroutines
+// and the initial messages.
+func VerifNewPeer(o VerifPeerOpts) *Peer {
+	p := New(o.Proxy, o.Conn, o.Addr, o.Incoming, protocol.HandshakeResult{
+		Hash: o.Hash, Id: o.Id, Dht: o.Dht, Fast: o.Fast, Extended: o.Extended})
+	p.Log.SetOutput(io.Discard)
+	p.Pieces = o.Pieces
+	p.torEvent = o.TorEvent
+	p.torDone = o.TorDone
+	p.Info = o.Info
+	p.myBitmap = o.MyBitmap
+	p.writer = make(chan protocol.Message, o.WriterCap)
+	p.writerDone = o.WriterDone
+	p.reqQ = 128
+	p.time = time.Now()
+	p.writeTime = time.Now()
+	return p
+}
+
+func VerifHandleMessage(p *Peer, m protocol.Message) error  { return handleMessage(p, m) }
+func VerifHandleEvent(p *Peer, e PeerEvent) error           { return handleEvent(p, e) }
+func VerifExpireRequests(p *Peer) bool                      { return expireRequests(p) }
+func VerifMaybeRequest(p *Peer)                             { maybeRequest(p) }
+func VerifScheduleUpload(p *Peer, immediate bool) error     { return scheduleUpload(p, immediate) }
+func VerifSendPex(p *Peer)                                  { sendPex(p) }
+func VerifUnchoke(p *Peer, u bool) error                    { return unchoke(p, u) }
+func VerifToChunk(p *Peer, index, begin uint32) uint32      { return toChunk(p, index, begin) }
+func VerifFromChunk(p *Peer, chunk uint32) (uint32, uint32) { return fromChunk(p, chunk) }
+func VerifChunkSize(p *Peer, chunk uint32) uint32           { return chunkSize(p, chunk) }
+func VerifNumPieces(p *Peer) int                            { return numPieces(p) }
+func VerifIsCongested(p *Peer) bool                         { return isCongested(p) }
+
+// VerifExit replays the exit path of Run (its deferred functions, in the order
+// in which they run), without touching the connection.
+func VerifExit(p *Peer) {
+	select {
+	case <-p.Done:
+	default:
+		close(p.Done)
+	}
+	p.requests.Clear(true, func(index uint32) {
+		drop(p, index)
+	})
+	writeEvent(p, TorPeerBitmap{p, p.bitmap.Copy(), false})
+	writeEvent(p, TorPeerGoaway{p})
+	p.stopUpload()
+	if p.amUnchoking != 0 {
+		n := atomic.AddInt32(&numUnchoking, -1)
+		if n < 0 {
+			panic("NumUnchoking is negative")
+		}
+	}
+}
+
+func VerifResetNumUnchoking() { atomic.StoreInt32(&numUnchoking, 0) }
+
+// VerifWriter is the queue of messages for the connection's writer.
+func (p *Peer) VerifWriter() chan protocol.Message { return p.writer }
+
+// VerifEvents is the overflow list of events for the torrent.
+func (p *Peer) VerifEvents() []TorEvent { return append([]TorEvent(nil), p.events...) }
+
+// VerifFlushEvents moves the overflow list to the torrent's channel as far
+// as it has room (what Run's select does one event at a time).
+func (p *Peer) VerifFlushEvents() {
+	for len(p.events) > 0 {
+		select {
+		case p.torEvent <- p.events[0]:
+			p.events = p.events[1:]
+		default:
+			return
+		}
+	}
+	p.events = nil
+}
+
+type VerifPeerState struct {
+	HasInfo          bool
+	Bitmap           bitmap.Bitmap
+	BitmapNil        bool
+	MyBitmap         bitmap.Bitmap
+	IsSeed           bool
+	Unchoked         bool
+	Interested       bool
+	AmUnchoking      bool
+	AmInterested     bool
+	ShouldInterested bool
+	GotExtended      bool
+	CanFast          bool
+	CanExtended      bool
+	PexExt           uint32
+	MetadataExt      uint32
+	DontHaveExt      uint32
+	UploadOnlyExt    uint32
+	UploadOnly       bool
+	ReqQ             int
+	Queue            []uint32
+	Requested        []requests.VerifRequest
+	Upload           []Requested
+	Fast             []uint32
+	Pex              []pex.Peer
+	Port             uint32
+	UploadTicking    bool
+}
+
+func (p *Peer) VerifState() VerifPeerState {
+	return VerifPeerState{
+		HasInfo: p.Info != nil, Bitmap: p.bitmap.Copy(), BitmapNil: p.bitmap == nil,
+		MyBitmap: p.myBitmap.Copy(), IsSeed: p.isSeed,
+		Unchoked: p.unchoked != 0, Interested: p.interested != 0,
+		AmUnchoking: p.amUnchoking != 0, AmInterested: p.amInterested,
+		ShouldInterested: p.shouldInterested, GotExtended: p.gotExtended,
+		CanFast: p.canFast, CanExtended: p.canExtended,
+		PexExt: p.pexExt, MetadataExt: p.metadataExt, DontHaveExt: p.dontHaveExt,
+		UploadOnlyExt: p.uploadOnlyExt, UploadOnly: p.uploadOnly, ReqQ: p.reqQ,
+		Queue: p.requests.VerifQueue(), Requested: p.requests.VerifRequested(),
+		Upload: append([]Requested(nil), p.requested...),
+		Fast:   append([]uint32(nil), p.fast...),
+		Pex:    append([]pex.Peer(nil), p.pex...),
+		Port:   p.Port, UploadTicking: p.uploadTicker != nil,
+	}
+}
+
+// VerifAge advances the peer's fake clock: request times, rtt bookkeeping.
+func (p *Peer) VerifAge(d time.Duration) { p.requests.VerifAge(d) }
+func (p *Peer) VerifSetRtt(rtt, rttvar time.Duration) {
+	p.rtt = rtt
+	p.rttvar = rttvar
+}
+func (p *Peer) VerifSetDownloadRate(bytes int) { p.download.Accumulate(bytes) }
+
+// pexState
+type VerifPexState struct {
+	Pending, PendingDel, Sent []pex.Peer
+}
+
+func (p *Peer) VerifPexState() VerifPexState {
+	s := &p.pexState
+	return VerifPexState{append([]pex.Peer(nil), s.pending...),
+		append([]pex.Peer(nil), s.pendingDel...), append([]pex.Peer(nil), s.sent...)}
+}
+
+// A free-standing pexState for model correspondence.
+type VerifPex struct{ s pexState }
+
+func (v *VerifPex) Add(p pex.Peer)                    { v.s.add(p) }
+func (v *VerifPex) Del(p pex.Peer)                    { v.s.del(p) }
+func (v *VerifPex) Compute() ([]pex.Peer, []pex.Peer) { return computePex(&v.s) }
+func (v *VerifPex) Rollback(tosend, todel []pex.Peer) {
+	v.s.pending = append(tosend, v.s.pending...)
+	v.s.pendingDel = append(todel, v.s.pendingDel...)
+}
+func (v *VerifPex) State() VerifPexState {
+	return VerifPexState{append([]pex.Peer(nil), v.s.pending...),
+		append([]pex.Peer(nil), v.s.pendingDel...), append([]pex.Peer(nil), v.s.sent...)}
+}
